@@ -8,6 +8,7 @@ var checks = map[string][]HarnessSpec{
 		{Name: "verifC02Flip", Pkg: ".", Labels: []string{"ran"}},
 		{Name: "verifC02Subst", Pkg: ".", Labels: []string{"ran"}},
 		{Name: "verifC02UnlistedSuite", Pkg: ".", Labels: []string{"listed", "unlisted"}},
+		{Name: "verifC02WrongIDSealed", Pkg: ".", Labels: []string{"wrong-id"}},
 	},
 	"C03": {
 		{Name: "verifC03Reconstruct", Pkg: ".", Labels: []string{"accepted", "checked"}},
@@ -20,6 +21,7 @@ var checks = map[string][]HarnessSpec{
 		{Name: "verifC05Raw", Pkg: ".", Labels: []string{"passed", "refused"}},
 		{Name: "verifC05Ext", Pkg: ".", Labels: []string{"passed", "refused", "valid"}},
 		{Name: "verifC05Structured", Pkg: ".", Labels: []string{"passed", "valid"}},
+		{Name: "verifC05Later", Pkg: ".", Labels: []string{"later"}},
 	},
 	"C06": {
 		{Name: "verifC06History", Pkg: ".", Labels: []string{"setup", "retry-ok", "retry-abort", "done"}},
@@ -36,6 +38,7 @@ var checks = map[string][]HarnessSpec{
 		{Name: "verifC08ReadArmed", Pkg: ".", Labels: []string{"armed"}},
 		{Name: "verifC08WriteArmed", Pkg: ".", Labels: []string{"writes-done"}},
 		{Name: "verifC08AroundECH", Pkg: ".", Labels: []string{"newconn-ok", "newconn-error"}},
+		{Name: "verifC10Stall", Pkg: ".", Labels: []string{"stall-returned"}},
 	},
 	"C09": {
 		{Name: "verifC09KeySets", Pkg: ".", Labels: []string{"ran", "accepted", "passthrough"}},
@@ -62,6 +65,7 @@ var checks = map[string][]HarnessSpec{
 		{Name: "verifC13RoundTrip", Pkg: "./dns", Labels: []string{"roundtrip"}},
 		{Name: "verifC13Compressed", Pkg: "./dns", Labels: []string{"compressed"}},
 		{Name: "verifC13RefDecode", Pkg: "./dns", Labels: []string{"refdecoded"}},
+		{Name: "verifC13Chain", Pkg: "./dns", Labels: []string{"chain"}},
 		{Name: "verifC13Padding", Pkg: "./dns", Labels: []string{"padded"}},
 		{Name: "verifC13ResponseCode", Pkg: "./dns", Labels: []string{"rcode"}},
 	},
@@ -77,6 +81,7 @@ var checks = map[string][]HarnessSpec{
 		{Name: "verifC16MinTTL", Pkg: ".", Labels: []string{"minttl"}},
 		{Name: "verifC16Expiry", Pkg: ".", Labels: []string{"hit", "miss"}},
 		{Name: "verifC16Cache", Pkg: ".", Labels: []string{"history", "cache-hit"}},
+		{Name: "verifC16Repeat", Pkg: ".", Labels: []string{"repeat"}},
 	},
 	"C17": {
 		{Name: "verifC17Dial", Pkg: ".", Labels: []string{"dialed", "connected", "failed"}},
